@@ -181,8 +181,16 @@ def run(ctx):
   ok = isinstance(first, ast.If) and 'is_quantized_sequence(note_sequence)' in norm_text(first.test) and \
       any(isinstance(x, ast.Raise) and isinstance(x.exc, ast.Call) and dotted(x.exc.func) == 'QuantizationStatusError' for x in first.body)
   quantized_definition(ctx, 'ESC/quantized-definition')
+  # located: the guard that raises QuantizationStatusError asks one of the two narrower predicates only
+  narrow = None
+  if not ok and isinstance(first, ast.If) and any(isinstance(x, ast.Raise) and isinstance(x.exc, ast.Call) and dotted(x.exc.func) == 'QuantizationStatusError' for x in first.body):
+    called = set(dotted(c.func).split('.')[-1] for c in ast.walk(first.test) if isinstance(c, ast.Call) and dotted(c.func))
+    if len(called & {'is_relative_quantized_sequence', 'is_absolute_quantized_sequence'}) == 1 and 'is_quantized_sequence' not in called and \
+        not any(isinstance(a, ast.Attribute) and a.attr in ('steps_per_second', 'steps_per_quarter') for a in ast.walk(first.test)):
+      narrow = sorted(called & {'is_relative_quantized_sequence', 'is_absolute_quantized_sequence'})[0]
   ctx.ob('ESC/quantized-rejected', fi, first, ok, 'quantized input raises QuantizationStatusError before any work' if ok else
-         'quantized input is not rejected with QuantizationStatusError before the sequence is processed')
+         ('the guard asks %s only: input quantized the other way (by %s) is accepted and processed as if its times were unquantized' % (narrow, 'steps per second' if 'relative' in narrow else 'steps per quarter')
+          if narrow else 'quantized input is not rejected with QuantizationStatusError before the sequence is processed'), definite=bool(narrow))
   ranks(ctx, fi, R)
   layout(ctx, fi, R)
   keyed(ctx, fi, R)
